@@ -67,14 +67,18 @@ class FlatRig(object):
         self.grader = ListGrader(answers=answers[0] if A == 1 else tuple(answers), subgraders=subs, ordered=ordered,
                                  partial_credit=pc)
 
-    def load(self, tensor, den):
+    def load(self, tensor, den, numpy_numbers=False):
+        """numpy_numbers: the subgraders report their credits as numpy scalars (what an author's numpy-computed
+        grade_decimal or a numpy-backed custom ItemGrader delivers) instead of Python floats"""
+        import numpy as np
+        num = np.float64 if numpy_numbers else float
         for t in self.tables:
             t.clear()
         for a in range(self.A):
             for i in range(self.n):
                 for j in range(self.n):
                     t = self.tables[j] if len(self.tables) > 1 else self.tables[0]
-                    t[(self.ans[a][j], self.inputs[i])] = (tensor[a][i][j] / float(den), 'M:A%d.%d~1:in%d;' % (a + 1, j + 1, i + 1))
+                    t[(self.ans[a][j], self.inputs[i])] = (num(tensor[a][i][j] / float(den)), 'M:A%d.%d~1:in%d;' % (a + 1, j + 1, i + 1))
         for s in self.subs:
             del s.calls[:]
 
@@ -144,14 +148,14 @@ def replay_flat(states, extra):
             rig = rigs[key]
             if k % 97 == 0:                      # now and then a freshly constructed grader instead of the reused one
                 rig = FlatRig(*key)
-            rig.load(tensor, c['den'])
+            rig.load(tensor, c['den'], numpy_numbers=(k % 3 == 1))      # every third case with numpy-scalar credits
             perms = [list(range(c['n']))] if c['ordered'] else flat_perms(c['n'], k, full and (c['n'] <= 3 or k % 4 == 0))
             for perm in perms:
                 n_calls += 1
                 obs = observe_flat(rig, c['den'], perm)
                 if obs not in allowed:
                     b = {'kind': 'flat', 'n': c['n'], 'A': c['A'], 'den': c['den'], 'ordered': c['ordered'], 'pc': c['pc'],
-                         'style': style, 'tensor': tensor, 'perm': [p + 1 for p in perm], 'observed': obs, 'allowed': allowed}
+                         'style': style, 'numpy_numbers': k % 3 == 1, 'tensor': tensor, 'perm': [p + 1 for p in perm], 'observed': obs, 'allowed': allowed}
                     bad.append(b if len(bad) < 40 else None)
                 keys.add(('flat', c['n'], c['A'], c['ordered'], c['pc'], len(allowed) > 1, perm == sorted(perm)))
                 if sample is None:
@@ -1203,7 +1207,7 @@ def replay(ctx, rec):
     print('signature:', {k: v for k, v in sig.items() if k not in ('allowed',)})
     if sig.get('kind') == 'flat':
         rig = FlatRig(sig['n'], sig['A'], sig['ordered'], sig['pc'], sig['style'])
-        rig.load(sig['tensor'], sig['den'])
+        rig.load(sig['tensor'], sig['den'], numpy_numbers=sig.get('numpy_numbers', False))
         obs = observe_flat(rig, sig['den'], [p - 1 for p in sig['perm']])
         print('observed now:', obs)
         print('was observed:', sig['observed'])
